@@ -1,9 +1,16 @@
 // C02 correspondence harness: every evaluation path of a topological question on pairs with arbitrary doubles.
 //   c02 relate-dbl <seed> <n> <outbase>
 //   c02 im-algebra <seed> <n> <outbase>   (geom::IntersectionMatrix get/set/setAtLeast/transpose/matches on random matrices)
+//   c02 rect-fast <seed> <n> <outbase>    (operation::predicate::RectangleIntersects and its three callers on exact lattice input)
+//   c02 point-setxy <seed> <n> <outbase>  (one geom::Point overwritten by setXY again and again: coordinate and cached envelope)
 //   c02 replay <file>
 #include "relobs.h"
+#include "c02gen.h"
 #include <geos/geom/IntersectionMatrix.h>
+#include <geos/geom/Point.h>
+#include <geos/geom/Polygon.h>
+#include <geos/geom/prep/PreparedGeometryFactory.h>
+#include <geos/operation/predicate/RectangleIntersects.h>
 #include <cstdarg>
 #include <fstream>
 #include <iostream>
@@ -43,7 +50,8 @@ static std::string ppreds(GEOSContextHandle_t h, const GEOSPreparedGeometry* pa,
     q += pc(GEOSPreparedContainsProperly_r(h, pa, b)); return q; }
 
 // "P=" etc. for (A,B) come from observe(); here the additional paths
-static std::string observe2(GEOSContextHandle_t h, const GEOSGeometry* a, const GEOSGeometry* b, Rng& r, const std::string& pats, int order) {
+typedef std::vector<std::pair<double, double>> Probes;
+static std::string observe2(GEOSContextHandle_t h, const GEOSGeometry* a, const GEOSGeometry* b, Rng& r, const std::string& pats, int order, const Probes& probes = Probes()) {
     std::string s = observe(h, a, b, r, pats);
     s += " PB=" + preds(h, b, a);
     const GEOSPreparedGeometry* pb = GEOSPrepare_r(h, b);
@@ -90,8 +98,39 @@ static std::string observe2(GEOSContextHandle_t h, const GEOSGeometry* a, const 
         xy = std::string() + pc(GEOSPreparedContainsXY_r(h, pa, x, y)) + pc(GEOSPreparedIntersectsXY_r(h, pa, x, y)) + pc(GEOSPreparedContains_r(h, pa, b)) + pc(GEOSPreparedIntersects_r(h, pa, b));
         GEOSPreparedGeom_destroy_r(h, pa); }
     s += " xy=" + xy;
+    // a walk of XY queries against ONE prepared geometry (the context's scratch point is overwritten query after query): each XY answer
+    // must equal the answer for a freshly built POINT, prepared and unprepared
+    if (!probes.empty()) { std::string q, v; const GEOSPreparedGeometry* pa = GEOSPrepare_r(h, a);
+        for (auto& pr : probes) { if (!q.empty()) { q += ","; v += ","; } q += hex(pr.first) + ":" + hex(pr.second);
+            v += pc(GEOSPreparedContainsXY_r(h, pa, pr.first, pr.second)); v += pc(GEOSPreparedIntersectsXY_r(h, pa, pr.first, pr.second));
+            GEOSGeometry* pt = GEOSGeom_createPointFromXY_r(h, pr.first, pr.second);
+            v += pc(GEOSPreparedContains_r(h, pa, pt)); v += pc(GEOSPreparedIntersects_r(h, pa, pt)); v += pc(GEOSContains_r(h, a, pt)); v += pc(GEOSIntersects_r(h, a, pt));
+            GEOSGeom_destroy_r(h, pt); }
+        GEOSPreparedGeom_destroy_r(h, pa); s += " xyq=" + q + " xys=" + v; }
     return s;
 }
+
+// ---- stream rect-fast helpers: lattice text for the driver
+static std::string latSeq(const std::vector<IPt>& ps, long tx, long ty) { std::string s = std::to_string(ps.size());
+    for (auto& p : ps) s += " " + std::to_string(p.x + tx) + " " + std::to_string(p.y + ty); return s; }
+static std::string latElem(const GElem& e, long tx, long ty) {
+    if (e.kind == 0) return e.empty ? "P 0" : "P " + latSeq(e.rings[0], tx, ty);
+    if (e.kind == 1) return e.empty ? "L 0" : "L " + latSeq(e.rings[0], tx, ty);
+    if (e.empty) return "Y 0";
+    std::string s = "Y " + std::to_string(e.rings.size()); for (auto& rg : e.rings) s += " " + latSeq(rg, tx, ty); return s; }
+static bool envMeet(long a0, long a1, long b0, long b1, long c0, long c1, long d0, long d1) { return !(c0 > a1 || c1 < a0 || d0 > b1 || d1 < b0); }
+// which visitor has to decide (exact lattice arithmetic; for the STAT distribution only)
+static std::string stageOf(const std::vector<IPt>& rect, const GGeom& g) {
+    long rx0 = 1 << 30, rx1 = -(1 << 30), ry0 = rx0, ry1 = rx1; for (auto& p : rect) { rx0 = std::min(rx0, p.x); rx1 = std::max(rx1, p.x); ry0 = std::min(ry0, p.y); ry1 = std::max(ry1, p.y); }
+    bool any = false, envs = false, corner = false, shellX = false, holeX = false;
+    for (auto& e : g.elems) { if (e.empty || e.rings.empty() || e.rings[0].empty()) continue;
+        long x0 = 1 << 30, x1 = -(1 << 30), y0 = x0, y1 = x1; for (auto& p : e.rings[0]) { x0 = std::min(x0, p.x); x1 = std::max(x1, p.x); y0 = std::min(y0, p.y); y1 = std::max(y1, p.y); }
+        if (!envMeet(rx0, rx1, ry0, ry1, x0, x1, y0, y1)) continue; any = true;
+        if ((x0 >= rx0 && x1 <= rx1) || (y0 >= ry0 && y1 <= ry1)) envs = true;
+        if (e.kind == 2) for (int i = 0; i < 4; i++) { if (GridGen::locate(e.rings[0], rect[(size_t) i]) < 0) continue; bool inHole = false;
+            for (size_t k = 1; k < e.rings.size(); k++) if (GridGen::locate(e.rings[k], rect[(size_t) i]) == 1) inHole = true; if (!inHole) corner = true; }
+        if (e.kind >= 1) for (size_t k = 0; k < e.rings.size(); k++) if (ringsMeet(rect, e.rings[k])) { if (k == 0) shellX = true; else holeX = true; } }
+    return !any ? "envelopes_disjoint" : envs ? "envelope_visitor" : corner ? "corner_visitor" : shellX ? "segment_visitor_shell_or_line" : holeX ? "segment_visitor_HOLE_ONLY" : "none_false"; }
 
 static std::vector<std::string> splitBar(const std::string& line) { std::vector<std::string> parts; size_t p = 0;
     while (true) { size_t q = line.find(" | ", p); if (q == std::string::npos) { parts.push_back(line.substr(p)); break; } parts.push_back(line.substr(p, q - p)); p = q + 3; } return parts; }
@@ -106,14 +145,16 @@ int main(int argc, char** argv) {
         while (std::getline(f, line)) { if (line.empty()) continue; auto parts = splitBar(line); if (parts.size() < 3) continue;
             if (parts[0] == "W") { GEOSGeometry* wa = GEOSGeomFromWKT_r(h, parts[1].c_str()); GEOSGeometry* wb = GEOSGeomFromWKT_r(h, parts[2].c_str());
                 if (!wa || !wb) { std::cout << "invalid\n"; continue; } parts[1] = dumpGeom((Geometry*) wa); parts[2] = dumpGeom((Geometry*) wb); GEOSGeom_destroy_r(h, wa); GEOSGeom_destroy_r(h, wb); }
-            std::string pats; int order = 0;
+            std::string pats; int order = 0; Probes probes;
             if (parts.size() >= 4) { size_t k = parts[3].find("pat="); if (k != std::string::npos) { std::istringstream is(parts[3].substr(k + 4, parts[3].find(' ', k) - k - 4)); std::string t, acc;
                 while (std::getline(is, t, ',')) { if (!acc.empty()) acc += ","; acc += t.substr(0, 9); } pats = acc; }
-                k = parts[3].find("ord="); if (k != std::string::npos) order = std::stoi(parts[3].substr(k + 4)); }
+                k = parts[3].find("ord="); if (k != std::string::npos) order = std::stoi(parts[3].substr(k + 4));
+                k = parts[3].find("xyq="); if (k != std::string::npos) { std::istringstream is(parts[3].substr(k + 4, parts[3].find(' ', k) - k - 4)); std::string t;
+                    while (std::getline(is, t, ',')) if (t.size() == 33) probes.push_back({frombits(std::stoull(t.substr(0, 16), nullptr, 16)), frombits(std::stoull(t.substr(17, 16), nullptr, 16))}); } }
             std::unique_ptr<Geometry> a, b;
             try { a = buildGeom(parts[1], gf); b = buildGeom(parts[2], gf); } catch (...) { std::cout << "invalid\n"; continue; }
             if (GEOSisValid_r(h, (GEOSGeometry*) a.get()) != 1 || GEOSisValid_r(h, (GEOSGeometry*) b.get()) != 1) { std::cout << "invalid\n"; continue; }
-            std::cout << "D | " << parts[1] << " | " << parts[2] << " | ord=" << order << observe2(h, (GEOSGeometry*) a.get(), (GEOSGeometry*) b.get(), r, pats, order) << "\n"; }
+            std::cout << "D | " << parts[1] << " | " << parts[2] << " | ord=" << order << observe2(h, (GEOSGeometry*) a.get(), (GEOSGeometry*) b.get(), r, pats, order, probes) << "\n"; }
         GEOS_finish_r(h); return 0; }
     if (argc < 5) return 2;
     uint64_t seed = std::stoull(argv[2]); long n = std::stol(argv[3]); Out out(argv[4]); Rng r(seed);
@@ -145,7 +186,66 @@ int main(int argc, char** argv) {
             out.count(std::string("match_") + (mt == '1' ? "true" : mt == '0' ? "false" : "throws"));
             out.emit("A " + m + " " + (pat.empty() ? std::string("-") : pat) + " " + std::to_string(ga) + std::to_string(gb) + ops, e); }
         GEOS_finish_r(h); return 0; }
+    if (stream == "point-setxy") {
+        // one geom::Point, overwritten by setXY over and over (what the XY predicate forms do with the context's scratch point): after every
+        // call the coordinate AND the cached envelope are observed.  Ordinates come from a small pool so that consecutive calls often keep x or y.
+        for (long i = 0; i < n; i++) {
+            std::vector<double> pool; int np = r.range(2, 4);
+            for (int k = 0; k < np; k++) { double mag = std::pow(10.0, r.range(-3, 9)); pool.push_back(r.chance(20) ? (double) r.range(-5, 5) : (r.unit() - 0.5) * 2 * mag); }
+            auto pick = [&]() { return pool[r.below(pool.size())]; };
+            std::unique_ptr<geos::geom::Point> pt; std::string c = "S ";
+            if (r.chance(30)) { pt = gf->createPoint(); c += "E"; out.count("start_empty"); }
+            else { double x = pick(), y = pick(); pt = gf->createPoint(geos::geom::CoordinateXY{x, y}); c += hex(x) + ":" + hex(y); out.count("start_point"); }
+            int nops = r.range(1, 6); std::string e; double px = 0, py = 0; bool have = !pt->isEmpty(); if (have) { px = pt->getX(); py = pt->getY(); }
+            for (int k = 0; k < nops; k++) { double x = pick(), y = pick();
+                if (have) out.count(x == px && y == py ? "op_same_point" : x == px ? "op_x_kept" : y == py ? "op_y_kept" : "op_both_changed"); else out.count("op_on_empty");
+                pt->setXY(x, y); px = x; py = y; have = true; c += " " + hex(x) + ":" + hex(y);
+                const geos::geom::Envelope* ev = pt->getEnvelopeInternal();
+                if (k) e += " ";
+                e += std::string(pt->isEmpty() ? "E" : "P") + ":" + hex(pt->getX()) + ":" + hex(pt->getY()) + ":" + (ev->isNull() ? std::string("null") : hex(ev->getMinX()) + ":" + hex(ev->getMaxX()) + ":" + hex(ev->getMinY()) + ":" + hex(ev->getMaxY())); }
+            out.emit(c, e); }
+        GEOS_finish_r(h); return 0; }
     GridGen gen(r, h, &out); gen.walkPct = 15;
+    if (stream == "rect-fast") {
+        // RectangleIntersects::intersects and its three callers (Geometry::intersects with the rectangle on either side, PreparedPolygon::intersects
+        // of the prepared rectangle) on exact lattice input (integer translation, power-of-two scale): the model of Model/Relate/RectFast.lean is exact there
+        using geos::operation::predicate::RectangleIntersects;
+        for (long i = 0; i < n; i++) {
+            gen.span = r.chance(50) ? 8 : 14; gen.setPartner(GGeom{}, 0);
+            GElem re; re.kind = 2; GGeom G; int fam = (int) r.below(100);
+            auto freeRect = [&](long W, long H) { long x0 = r.range(-2, (int) W), y0 = r.range(-2, (int) H), x1 = x0 + r.range(1, 9), y1 = y0 + r.range(1, 9);
+                re.rings.clear(); re.rings.push_back({{x0, y0}, {x1, y0}, {x1, y1}, {x0, y1}, {x0, y0}}); };
+            if (fam < 45) { Cheese c = makeCheese(r, gen); G.container = 0; G.elems.push_back(c.poly);
+                if (fam < 25 && rectFrom(r, c.inHoles, re)) out.count("family_cheese_rect_corners_in_holes");
+                else if (fam < 33) { std::vector<IPt> all = c.inHoles; all.insert(all.end(), c.inSolid.begin(), c.inSolid.end()); if (!rectFrom(r, all, re)) continue; out.count("family_cheese_rect_anywhere"); }
+                else { freeRect(c.W, c.H); out.count("family_cheese_rect_free"); }
+                if (r.chance(30)) { GElem far; far.kind = 2; long ox = c.W + r.range(1, 3); far.rings.push_back({{ox, 0}, {ox + 2, 0}, {ox + 2, 2}, {ox, 2}, {ox, 0}}); GGeom G2 = G; G2.container = 1;
+                    if (r.chance(50)) G2.elems.push_back(far); else G2.elems.insert(G2.elems.begin(), far); if (gen.valid(G2)) G = G2; } }
+            else if (fam < 57) { G = gen.nestedFrames(); long S = 0; for (auto& e : G.elems) for (auto& p : e.rings[0]) S = std::max(S, p.x);
+                freeRect(S, S); out.count("family_nested_frames"); }
+            else { freeRect(gen.span - 2, gen.span - 2); GGeom R; R.container = 0; R.elems.push_back(re);
+                gen.setPartner(R, r.chance(75) ? 55 : 0); G = gen.geom(3, true, true); out.count("family_general_contact"); }
+            respin(r, re.rings[0]);
+            Xform t; t.sym = 0; t.k = r.chance(40) ? 0 : r.range(-20, 20);
+            switch (r.below(3)) { case 0: break; case 1: t.tx = r.range(-100, 100); t.ty = r.range(-100, 100); break; default: t.tx = r.range(-1000000, 1000000); t.ty = r.range(-1000000, 1000000); }
+            GGeom R; R.container = 0; R.elems.push_back(re);
+            std::unique_ptr<Geometry> gr, gg;
+            try { gr = buildGeom(GridGen::geomTok(R, t), gf); gg = buildGeom(GridGen::geomTok(G, t), gf); } catch (...) { out.count("build_rejected"); continue; }
+            const geos::geom::Polygon* rp = dynamic_cast<const geos::geom::Polygon*>(gr.get());
+            if (!rp || !rp->isRectangle()) { out.count("not_a_rectangle"); continue; }
+            bool valid = GEOSisValid_r(h, (GEOSGeometry*) gg.get()) == 1; out.count(valid ? "test_geometry_valid" : "test_geometry_invalid");
+            bool swapped = gg->isRectangle();          // then Geometry::intersects(g, rect) runs the fast path with the roles exchanged
+            std::string e;
+            try { e += RectangleIntersects::intersects(*rp, *gg) ? '1' : '0'; e += gr->intersects(gg.get()) ? '1' : '0'; e += gg->intersects(gr.get()) ? '1' : '0';
+                  auto pg = geos::geom::prep::PreparedGeometryFactory::prepare(gr.get()); e += pg->intersects(gg.get()) ? '1' : '0'; }
+            catch (const std::exception&) { e = "X"; }
+            out.count("decided_by_" + stageOf(re.rings[0], G)); out.count(std::string("typeG_") + gg->getGeometryType()); out.count(std::string("answer_") + e);
+            std::string c = "F " + latSeq(re.rings[0], t.tx, t.ty) + " |";
+            for (size_t k = 0; k < G.elems.size(); k++) c += std::string(k ? " ; " : " ") + latElem(G.elems[k], t.tx, t.ty);
+            if (G.elems.empty()) c += " -";
+            c += std::string(" | v=") + (valid ? "1" : "0") + " swap=" + (swapped ? "1" : "0");
+            out.emit(c, e); }
+        GEOS_finish_r(h); return 0; }
     for (long i = 0; i < n; i++) {
         gen.span = r.chance(60) ? 6 : (r.chance(50) ? 3 : 12);
         gen.setPartner(GGeom{}, 0);
@@ -156,7 +256,24 @@ int main(int argc, char** argv) {
         gen.setPartner(A, r.chance(80) ? 55 : 0);
         GGeom B;
         int mode = (int) r.below(100);
-        if (mode < 4) B = A;
+        if (r.chance(12)) {
+            // polygons whose HOLES decide: the partner's vertices all lie inside holes (outside the polygon) while its edges cross the solid part;
+            // half of the time the partner is an axis-parallel rectangle (fast paths), its ring in any of the eight vertex orders
+            Cheese c = makeCheese(r, gen); B = GGeom{}; B.container = 0; B.elems.push_back(c.poly); GElem re;
+            if (r.chance(55) && rectFrom(r, r.chance(80) ? c.inHoles : c.inSolid, re)) { respin(r, re.rings[0]); A = GGeom{}; A.container = 0; A.elems.push_back(re); wantRect = true; out.count("A_rectangle"); out.count("holes_decide_rectangle"); }
+            else { wantRect = false; gen.setPartner(GGeom{}, 0); gen.pool = c.inHoles; if (r.chance(25)) gen.pool.insert(gen.pool.end(), c.inSolid.begin(), c.inSolid.end()); gen.contactPct = 100;
+                   A = gen.geom(3, true, false); out.count("holes_decide_general"); }
+            if (r.chance(25)) { GElem far; far.kind = 2; long ox = c.W + r.range(1, 3); far.rings.push_back({{ox, 0}, {ox + 2, 0}, {ox + 2, 2}, {ox, 2}, {ox, 0}}); GGeom B2 = B; B2.container = 1; B2.elems.push_back(far); if (gen.valid(B2)) B = B2; } }
+        else if (r.chance(7)) {
+            // one geometry strictly inside a polygon ELEMENT of a collection (no boundary contact, the collection's other elements anywhere): the
+            // containment paths that never see a segment intersection and must look into the elements of a GeometryCollection / Multi*
+            wantRect = false; gen.span = 12; gen.setPartner(GGeom{}, 0); GElem P = gen.polygon(); std::vector<IPt> in = gen.interiorPoints(P);
+            A = GGeom{}; A.container = r.chance(75) ? 2 : 1; A.elems.push_back(P);
+            int extra = r.range(0, 2); for (int k = 0; k < extra; k++) { A.elems.push_back(gen.elem(A.container == 2 ? (int) r.below(3) : 2)); if (A.container == 1 && !gen.valid(A)) A.elems.pop_back(); }
+            for (size_t k = A.elems.size(); k > 1; k--) std::swap(A.elems[k - 1], A.elems[r.below(k)]);
+            if (in.size() >= 3) { gen.pool = in; gen.contactPct = 100; B = gen.geom(r.chance(60) ? 2 : 3, true, false); out.count("strictly_inside_collection_element"); }
+            else B = gen.geom(3, true, true); }
+        else if (mode < 4) B = A;
         else if (mode < 14 && gen.holeSwallower(A, B)) {}
         else if (mode < 26) B = gen.partialCover(A, true);
         else { if (mode < 36) gen.setPartnerInterior(A); B = gen.geom(3, true, true); }
@@ -175,7 +292,8 @@ int main(int argc, char** argv) {
         if (th == 0.0) out.count("axis_parallel");
         int order = (int) r.below(1 << 20);
         { FILE* cf = std::fopen((std::string(argv[4]) + ".current").c_str(), "w"); if (cf) { std::fprintf(cf, "D | %s | %s |\n", ta.c_str(), tb.c_str()); std::fclose(cf); } }
-        std::string obs = observe2(h, (GEOSGeometry*) ga.get(), (GEOSGeometry*) gb.get(), r, "", order);
+        Probes probes; if (r.chance(40)) { for (auto& p : probeWalk(r, A)) { double x, y; t.apply(p, x, y); probes.push_back({x, y}); } out.count("xy_walks"); out.count("xy_walk_probes", (long) probes.size()); }
+        std::string obs = observe2(h, (GEOSGeometry*) ga.get(), (GEOSGeometry*) gb.get(), r, "", order, probes);
         { size_t k = obs.find(" m="); out.count("matrix_" + obs.substr(k + 3, 9)); }
         if (obs.find("rect=-") == std::string::npos) out.count("rect_variant_checked");
         if (obs.find("xy=-") == std::string::npos) out.count("xy_forms_checked");
